@@ -74,6 +74,13 @@ def admissible_nfft(cls, cfg, N, rng):
         base = max(base, 2 * cfg['lag'] + 1)
     if cls == 'pminvar':
         base = max(base, 2 * cfg['order'])
+    if rng.integers(0, 3) == 0:
+        # the smallest admissible grid of the class (the statement's bounds), and the one just above it
+        lo = {'Periodogram': N, 'MultiTapering': N, 'pcorrelogram': 2 * cfg.get('lag', 0) + 1, 'pminvar': 2 * cfg.get('order', 0),
+              'pburg': cfg.get('order', 0) + 1, 'pyule': cfg.get('order', 0) + 1, 'pcovar': cfg.get('order', 0) + 1, 'pmodcovar': cfg.get('order', 0) + 1,
+              'parma': max(cfg.get('P', 0), cfg.get('Q', 0)) + 1, 'pma': cfg.get('Q', 0) + 1}.get(cls)
+        if lo is not None:
+            base = lo + int(rng.integers(0, 2))
     return base
 
 
@@ -256,6 +263,8 @@ def run(ctx):
         elif name == 'CORRELOGRAMPSD':
             lag = int(rng.integers(2, N // 2)); cfg = {'lag': lag, 'window': str(rng.choice(['hamming', 'hann', 'rectangular'])), 'norm': str(rng.choice(['biased', 'unbiased']))}
             NFFT = max(NFFT, 2 * lag + 1)
+            if rng.integers(0, 3) == 0:
+                NFFT = 2 * lag + 1 + int(rng.integers(0, 2))          # the smallest admissible grid
         elif name == 'arma2psd':
             pa = int(rng.integers(0, 6)); pb = int(rng.integers(0, 6))
             A = (rng.integers(-8, 9, size=pa) + (1j * rng.integers(-8, 9, size=pa) if cplx else 0)) / 16.0
@@ -263,7 +272,7 @@ def run(ctx):
             cfg = {'A': [complex(t) for t in A], 'B': [complex(t) for t in B], 'rho': float(rng.integers(1, 9)) / 4, 'T': float(rng.choice([1.0, 0.5, 8.0]))}
             NFFT = int(rng.integers(max(pa, pb) + 1, max(pa, pb) + 12))
         elif name == 'minvar':
-            m = int(rng.integers(2, min(N // 4, 8) + 1)); cfg = {'order': m}; NFFT = max(NFFT, 2 * m)
+            m = int(rng.integers(2, min(N // 4, 8) + 1)); cfg = {'order': m}; NFFT = max(NFFT, 2 * m) if rng.integers(0, 3) else 2 * m + int(rng.integers(0, 2))
         else:
             NW = float(rng.choice([2.0, 2.5, 3.0])); cfg = {'NW': NW, 'k': int(rng.integers(1, int(2 * NW))), 'method': str(rng.choice(['unity', 'eigen']))}
         tag = 'complex' if cplx else 'real'
